@@ -78,8 +78,28 @@ def re_term(pattern):
                 merged.append((a, b))
         return '.cls [' + ', '.join(f'({a}, {b})' for a, b in merged) + ']'
 
+    def fuse(items):
+        """`X X{n,}` and `X{n,} X` with the same class X are `X{n+1,}` (so `[a-z][a-z]+` and `[a-z]{2,}` give one term)"""
+        items = list(items)
+        out = []
+        for x in items:
+            if out:
+                a, b = out[-1], x
+                def rep(y):
+                    return y[0] == C.MAX_REPEAT and y[1][1] == C.MAXREPEAT and len(y[1][2]) == 1 and y[1][2][0][0] in (C.IN, C.LITERAL)
+                def single(y):
+                    return y[0] in (C.IN, C.LITERAL)
+                if single(a) and rep(b) and node(a) == node(b[1][2][0]):
+                    out[-1] = (C.MAX_REPEAT, (b[1][0] + 1, C.MAXREPEAT, b[1][2]))
+                    continue
+                if rep(a) and single(b) and node(b) == node(a[1][2][0]):
+                    out[-1] = (C.MAX_REPEAT, (a[1][0] + 1, C.MAXREPEAT, a[1][2]))
+                    continue
+            out.append(x)
+        return out
+
     def seq(items):
-        ts = [node(x) for x in items]
+        ts = [node(x) for x in fuse(items)]
         if not ts:
             return '.eps'
         t = ts[-1]
